@@ -1,0 +1,41 @@
+//go:build verif
+
+package uhppote
+
+import (
+	"net"
+	"time"
+
+	"github.com/uhppoted/uhppote-core/types"
+)
+
+// Verification hooks (build tag `verif` only): export the transport interface and a
+// constructor that lets an external harness wrap or replace the UDP/TCP driver so that
+// requests can be recorded and replies injected. Nothing here is compiled without the tag.
+
+type VerifDriver = driver
+
+func VerifNew(
+	bindAddr types.BindAddr,
+	broadcastAddr types.BroadcastAddr,
+	listenAddr types.ListenAddr,
+	timeout time.Duration,
+	devices []Device,
+	debug bool,
+	wrap func(VerifDriver) VerifDriver) IUHPPOTE {
+	u := NewUHPPOTE(bindAddr, broadcastAddr, listenAddr, timeout, devices, debug).(*uhppote)
+
+	if wrap != nil {
+		u.driver = wrap(u.driver)
+	}
+
+	return u
+}
+
+func VerifIsWiegand26(card uint32) bool {
+	return isWiegand26(card)
+}
+
+func VerifResolve(address types.BroadcastAddr) *net.UDPAddr {
+	return resolve(address)
+}
